@@ -117,7 +117,7 @@ def resolve_find_in_map(function_body, params: Dict, mappings: Dict[str, Dict], 
 
 
 def resolve_sub(function_body, params: Dict, mappings: Dict[str, Dict], conditions: Dict[str, bool]) -> str:
-    replacements = params
+    replacements = dict(params)
     # Whenever we receive a list, first parameter is a text and the second one is a dict with custom replacements.
     # Whenever we receive a string, we need to resolve inlined variables
     if isinstance(function_body, list):
